@@ -1,9 +1,11 @@
 """Generated layer for C11: the copy POLICY of typedpy's __deepcopy__ routines, recognised structurally on the
 AST of /repo's working tree and written to coq/theories/Gen/CopySites.v on every run.
 
-  Structure.__getstate__ / __copy__ (typedpy/structures/structures.py)
+  Structure.__getstate__ / __setstate__ / __copy__ (typedpy/structures/structures.py)
       which names the pickled state keeps (all fields of the inheritance chain | unknown; present in __dict__ |
-      truthy | no filter | unknown); whether __copy__ is the plain __dict__ update
+      truthy | no filter | unknown), whether it carries `_none_fields`, how __setstate__ rebuilds the instance
+      (the interpreter's default | __dict__.update + `_none_fields` default + `_instantiated` | unknown);
+      whether __copy__ is the plain __dict__ update
   Structure.__deepcopy__            (typedpy/structures/structures.py)
       the `return self` guard, the loop over self.__dict__.items(), what is stored for each value
       (deepcopy(v[, memo]) | v | a conditional on isinstance(v, <types>)), and whether it is stored with
@@ -290,32 +292,74 @@ def wrapper_deepcopy(tree, cls):
 
 # ------------------------------------------------------------------ Structure.__getstate__, Structure.__copy__
 
+NONES = "_none_fields"
+
+
+def _is_self_dict(e):
+    return isinstance(e, ast.Attribute) and e.attr == "__dict__" and _is_name(e.value, "self")
+
+
+def _is_const(e, value):
+    return isinstance(e, ast.Constant) and e.value == value
+
+
+def _is_empty_set(e):
+    return isinstance(e, ast.Call) and _is_name(e.func, "set") and not e.args and not e.keywords
+
+
+def _reads_nones(e):
+    """the instance's `_none_fields`, an empty set when it has none"""
+    if isinstance(e, ast.Call) and isinstance(e.func, ast.Attribute) and e.func.attr == "get" and _is_self_dict(e.func.value) \
+            and len(e.args) == 2 and _is_const(e.args[0], NONES) and _is_empty_set(e.args[1]) and not e.keywords:
+        return True
+    if isinstance(e, ast.Call) and _is_name(e.func, "getattr") and len(e.args) == 3 and _is_name(e.args[0], "self") \
+            and _is_const(e.args[1], NONES) and _is_empty_set(e.args[2]) and not e.keywords:
+        return True
+    return False
+
+
 def structure_getstate(tree):
-    """(which fields, filter, value) of the dict comprehension __getstate__ returns:
+    """(which fields, filter, value, internal) of the state __getstate__ returns: a dict comprehension, returned
+    directly or bound to a local that then receives internal entries and is returned.
     fields: GsAllFields (the fields of the whole inheritance chain) | GsUnknownFields
     filter: GsInDict (`name in self.__dict__`) | GsTruthy (`self.__dict__.get(name)`) | GsNoFilter | GsUnknownFilter
-    value : GsFieldValue (the stored value, through Field.__serialize__ or not) | GsUnknownValue"""
-    bad = ("GsUnknownFields", "GsUnknownFilter", "GsUnknownValue")
+    value : GsFieldValue (the stored value, through Field.__serialize__ or not) | GsUnknownValue
+    internal: GsNonesKept (state["_none_fields"] = the instance's set, empty when absent) | GsNoInternal | GsUnknownInternal"""
+    bad = ("GsUnknownFields", "GsUnknownFilter", "GsUnknownValue", "GsUnknownInternal")
     fn = _method(tree, "Structure", "__getstate__")
     if fn is None:
         return bad
     body = [s for s in fn.body if not (isinstance(s, ast.Expr) and isinstance(s.value, ast.Constant))]
-    if len(body) != 2 or not isinstance(body[0], ast.Assign) or not isinstance(body[1], ast.Return):
+    if len(body) < 2 or not isinstance(body[0], ast.Assign) or not isinstance(body[-1], ast.Return):
         return bad
-    a, r = body
+    a, r = body[0], body[-1]
     if len(a.targets) != 1 or not isinstance(a.targets[0], ast.Name) or not isinstance(a.value, ast.Call):
         return bad
     src = ast.unparse(a.value)
     fields = "GsAllFields" if src in ("_get_all_fields_by_name(self.__class__)", "self.__class__.get_all_fields_by_name()",
                                       "self.get_all_fields_by_name()", "_get_all_fields_by_name(type(self))") \
         else "GsUnknownFields"
-    comp = r.value
+    if len(body) == 2:
+        comp, internal = r.value, "GsNoInternal"
+    else:
+        st = body[1]
+        if not (isinstance(st, ast.Assign) and len(st.targets) == 1 and isinstance(st.targets[0], ast.Name)
+                and isinstance(r.value, ast.Name) and r.value.id == st.targets[0].id and st.targets[0].id != a.targets[0].id):
+            return (fields, "GsUnknownFilter", "GsUnknownValue", "GsUnknownInternal")
+        comp, state = st.value, st.targets[0].id
+        stores = body[2:-1]
+        internal = "GsNoInternal" if not stores else "GsUnknownInternal"
+        if len(stores) == 1 and isinstance(stores[0], ast.Assign) and len(stores[0].targets) == 1:
+            t = stores[0].targets[0]
+            if isinstance(t, ast.Subscript) and _is_name(t.value, state) and _is_const(t.slice, NONES) \
+                    and _reads_nones(stores[0].value):
+                internal = "GsNonesKept"
     if not isinstance(comp, ast.DictComp) or len(comp.generators) != 1:
-        return (fields, "GsUnknownFilter", "GsUnknownValue")
+        return (fields, "GsUnknownFilter", "GsUnknownValue", internal)
     g = comp.generators[0]
     if ast.unparse(g.iter) != a.targets[0].id + ".items()" or not isinstance(g.target, ast.Tuple) \
             or len(g.target.elts) != 2 or not all(isinstance(e, ast.Name) for e in g.target.elts):
-        return (fields, "GsUnknownFilter", "GsUnknownValue")
+        return (fields, "GsUnknownFilter", "GsUnknownValue", internal)
     name, field = g.target.elts[0].id, g.target.elts[1].id
     if not g.ifs:
         flt = "GsNoFilter"
@@ -330,7 +374,45 @@ def structure_getstate(tree):
              "self.__dict__.get(%s)" % name)
     ok_vals = reads + tuple("%s.__serialize__(%s)" % (field, rd) for rd in reads)
     val = "GsFieldValue" if (_is_name(comp.key, name) and vsrc in ok_vals) else "GsUnknownValue"
-    return (fields, flt, val)
+    return (fields, flt, val, internal)
+
+
+def structure_restore(tree):
+    """How an instance is rebuilt from its state:
+    GsRestoreDefault       Structure defines none of __setstate__ / __reduce__ / __reduce_ex__ / __getnewargs__(_ex)
+    GsRestoreInstantiated  __setstate__(self, state) is: self.__dict__.update(state); self.__dict__.setdefault(
+                           "_none_fields", set()); self.__dict__["_instantiated"] = True  (the last two in any order)
+    GsUnknownRestore       anything else"""
+    others = [_method(tree, "Structure", n) for n in ("__reduce__", "__reduce_ex__", "__getnewargs__", "__getnewargs_ex__")]
+    fn = _method(tree, "Structure", "__setstate__")
+    if any(o is not None for o in others):
+        return "GsUnknownRestore"
+    if fn is None:
+        return "GsRestoreDefault"
+    args = fn.args
+    if [a.arg for a in args.args] != ["self", "state"] or args.vararg or args.kwarg or args.kwonlyargs or args.defaults:
+        return "GsUnknownRestore"
+    body = [s for s in fn.body if not (isinstance(s, ast.Expr) and isinstance(s.value, ast.Constant))]
+    if len(body) != 3:
+        return "GsUnknownRestore"
+    up = body[0]
+    if not (isinstance(up, ast.Expr) and isinstance(up.value, ast.Call) and isinstance(up.value.func, ast.Attribute)
+            and up.value.func.attr == "update" and _is_self_dict(up.value.func.value) and len(up.value.args) == 1
+            and _is_name(up.value.args[0], "state") and not up.value.keywords):
+        return "GsUnknownRestore"
+    seen = set()
+    for s in body[1:]:
+        if isinstance(s, ast.Expr) and isinstance(s.value, ast.Call) and isinstance(s.value.func, ast.Attribute) \
+                and s.value.func.attr == "setdefault" and _is_self_dict(s.value.func.value) and len(s.value.args) == 2 \
+                and _is_const(s.value.args[0], NONES) and _is_empty_set(s.value.args[1]) and not s.value.keywords:
+            seen.add("nones")
+        elif isinstance(s, ast.Assign) and len(s.targets) == 1 and isinstance(s.targets[0], ast.Subscript) \
+                and _is_self_dict(s.targets[0].value) and _is_const(s.targets[0].slice, "_instantiated") \
+                and isinstance(s.value, ast.Constant) and s.value.value is True:
+            seen.add("live")
+        else:
+            return "GsUnknownRestore"
+    return "GsRestoreInstantiated" if seen == {"nones", "live"} else "GsUnknownRestore"
 
 
 def structure_copy(tree):
@@ -349,7 +431,7 @@ def facts():
     st = _parse(os.path.join("structures", "structures.py"))
     ci = _parse(os.path.join("fields", "collections_impl.py"))
     self_guard, attr, via = structure_deepcopy(st)
-    gs = structure_getstate(st)
+    gs = structure_getstate(st) + (structure_restore(st),)
     return {
         "gs": gs, "copy_dict_update": structure_copy(st),
         "cp_self_if_immutable": self_guard, "cp_attr": attr, "cp_attr_via_setattr": via,
@@ -377,9 +459,9 @@ def render(f):
         "    cp_wdict := %s" % emit_policy(f["cp_wdict"]),
         "  |}.",
         "",
-        "(* Structure.__getstate__: which names the pickled state keeps *)",
+        "(* Structure.__getstate__ / __setstate__: which names the pickled state keeps, how the instance is rebuilt *)",
         "Definition state_sites : state_policy :=",
-        "  {| sp_fields := %s; sp_filter := %s; sp_value := %s |}." % f["gs"],
+        "  {| sp_fields := %s; sp_filter := %s; sp_value := %s; sp_internal := %s; sp_restore := %s |}." % f["gs"],
         "",
         "(* Structure.__copy__ is `result.__dict__.update(self.__dict__)` on a new object of the same class *)",
         "Definition copy_is_dict_update : bool := %s." % b(f["copy_dict_update"]),
